@@ -49,3 +49,309 @@ Proof. intros sc timing k m scope H. simpl. rewrite H. eauto. Qed.
 Lemma lifecycle_off_is_silent : forall sc timing k m scope,
   lifecycle_on sc k = false -> expand sc timing (OpSpan k m scope) = [].
 Proof. intros sc timing k m scope H. simpl. rewrite H. reflexivity. Qed.
+
+(** ** Record content (Full / Compact): the bytes are the rendering of the specified token list *)
+
+Lemma concat_map_app : forall (g : tok -> bytes) (a b : list tok),
+  concat (map g (a ++ b)) = concat (map g a) ++ concat (map g b).
+Proof. intros. rewrite map_app, concat_app. reflexivity. Qed.
+
+Lemma opt_tok_render : forall f b t (x : bytes),
+  render_tok f t = x -> concat (map (render_tok f) (opt_tok b t)) = if b then x else [].
+Proof. intros f [] t x H; simpl; [rewrite app_nil_r; exact H | reflexivity]. Qed.
+
+Lemma head_is_tokens : forall f o m th, head f o m th = concat (map (render_tok f) (head_toks o m th)).
+Proof.
+  intros. unfold head, head_toks. rewrite !concat_map_app.
+  rewrite (opt_tok_render f (o_timer o) TTimer _ eq_refl).
+  rewrite (opt_tok_render f (o_level o) (TLevel (e_level m)) _ eq_refl).
+  rewrite (opt_tok_render f (o_tname o) (TThreadName (th_name th)) _ eq_refl).
+  rewrite (opt_tok_render f (o_tid o) (TThreadId (th_id th)) _ eq_refl).
+  reflexivity.
+Qed.
+
+Lemma scope_full_is_tokens : forall sc, scope_full sc = concat (map (render_tok Full) (span_toks_full sc)).
+Proof.
+  intros sc. unfold scope_full, span_toks_full. rewrite concat_map_app, map_map. f_equal.
+  - f_equal. apply map_ext. intros s. unfold span_full. simpl. destruct (span_fields s); reflexivity.
+  - destruct sc; reflexivity.
+Qed.
+
+Lemma scope_compact_is_tokens : forall sc, scope_compact sc = concat (map (render_tok Compact) (span_toks_compact sc)).
+Proof.
+  intros sc. unfold scope_compact, span_toks_compact. induction sc as [|s t IH]; simpl; [reflexivity|].
+  rewrite concat_map_app, <- IH. f_equal. unfold span_compact.
+  destruct (span_fields s); simpl; [reflexivity | rewrite app_nil_r; reflexivity].
+Qed.
+
+Lemma location_full_is_tokens : forall o m, location_full o m = concat (map (render_tok Full) (loc_toks o m)).
+Proof.
+  intros. unfold location_full, loc_toks. rewrite !concat_map_app.
+  rewrite (opt_tok_render Full (o_target o) (TTarget (e_target m)) _ eq_refl). f_equal. f_equal.
+  - destruct (o_file o); [|reflexivity]. destruct (e_file m); [|reflexivity]. simpl. rewrite app_nil_r.
+    destruct (shown_line o m); reflexivity.
+  - destruct (shown_line o m); simpl; [rewrite app_nil_r|]; reflexivity.
+Qed.
+
+Lemma location_compact_is_tokens : forall o m, location_compact o m = concat (map (render_tok Compact) (loc_toks o m)).
+Proof.
+  intros. unfold location_compact, loc_toks. rewrite !concat_map_app.
+  rewrite (opt_tok_render Compact (o_target o) (TTarget (e_target m)) _ eq_refl). f_equal. f_equal.
+  - destruct (o_file o); [|reflexivity]. destruct (e_file m); [|reflexivity]. simpl. rewrite !app_nil_r. reflexivity.
+  - destruct (shown_line o m); simpl; [rewrite app_nil_r|]; reflexivity.
+Qed.
+
+Lemma fields_are_tokens : forall f fl first fs, ok_fields fl = Some fs ->
+  render_flds first fl = (concat (map (render_tok f) (field_toks first fs)), SOk).
+Proof.
+  intros f fl. induction fl as [|n v r IH|n e post r IH|n pre|n pre]; intros first fs H; simpl in *.
+  - inversion H. reflexivity.
+  - destruct (ok_fields r) as [fs'|]; [|discriminate]. inversion H; subst. simpl.
+    rewrite (IH false fs' eq_refl). rewrite <- !app_assoc. reflexivity.
+  - destruct (ok_fields r) as [fs'|]; [|discriminate]. inversion H; subst. simpl.
+    rewrite (IH false fs' eq_refl). rewrite <- !app_assoc. reflexivity.
+  - discriminate.
+  - discriminate.
+Qed.
+
+(** C13_content, structural part: a completed record IS the concatenation of the renderings of
+    level / thread / spans root->leaf with fields / target / location / every event field / newline. *)
+Theorem content_tokens : forall f o th m sc fl fs, ok_fields fl = Some fs ->
+  format_event f o th (Em m sc fl) = OOk (concat (map (render_tok f) (tokens_spec f o th m sc fs))).
+Proof.
+  intros f o th m sc fl fs H. unfold format_event. rewrite (fields_are_tokens f fl true fs H).
+  f_equal. unfold before_fields, after_fields, tokens_spec. destruct f.
+  - rewrite !concat_map_app, <- head_is_tokens, <- scope_full_is_tokens, <- location_full_is_tokens.
+    simpl. rewrite <- !app_assoc. reflexivity.
+  - rewrite !concat_map_app, <- head_is_tokens, <- scope_compact_is_tokens, <- location_compact_is_tokens.
+    simpl. rewrite <- !app_assoc. reflexivity.
+Qed.
+
+(** What the token list names — independent of rendering. *)
+Lemma filter_app_tok : forall (p : tok -> bool) a b, filter p (a ++ b) = filter p a ++ filter p b.
+Proof. intros. apply filter_app. Qed.
+
+Lemma head_no_span_field : forall o m th, filter is_span_tok (head_toks o m th) = [] /\ filter is_field_tok (head_toks o m th) = [].
+Proof. intros. unfold head_toks, opt_tok. destruct (o_timer o), (o_level o), (o_tname o), (o_tid o); simpl; auto. Qed.
+
+Lemma loc_no_span_field : forall o m, filter is_span_tok (loc_toks o m) = [] /\ filter is_field_tok (loc_toks o m) = [].
+Proof.
+  intros. unfold loc_toks, opt_tok.
+  destruct (o_target o), (o_file o), (e_file m), (shown_line o m); simpl; auto.
+Qed.
+
+Lemma field_toks_filters : forall first fs,
+  filter is_span_tok (field_toks first fs) = [] /\ filter is_field_tok (field_toks first fs) = field_toks first fs.
+Proof.
+  intros first fs. revert first. induction fs as [|[n v] r IH]; intros first; simpl; [auto|].
+  destruct (IH false) as [A B]. rewrite A, B. auto.
+Qed.
+
+Lemma span_toks_full_filters : forall sc,
+  filter is_span_tok (span_toks_full sc) = map (fun s => TSpan (s_name s) (span_fields s)) sc
+  /\ filter is_field_tok (span_toks_full sc) = [].
+Proof.
+  intros sc. unfold span_toks_full. rewrite !filter_app. split.
+  - replace (filter is_span_tok match sc with [] => [] | _ :: _ => [TScopeEnd] end) with (@nil tok) by (destruct sc; reflexivity).
+    rewrite app_nil_r. induction sc; simpl; [reflexivity | f_equal; assumption].
+  - replace (filter is_field_tok match sc with [] => [] | _ :: _ => [TScopeEnd] end) with (@nil tok) by (destruct sc; reflexivity).
+    rewrite app_nil_r. induction sc; simpl; [reflexivity | assumption].
+Qed.
+
+Lemma span_toks_compact_filters : forall sc,
+  filter is_span_tok (span_toks_compact sc) = span_toks_compact sc /\ filter is_field_tok (span_toks_compact sc) = [].
+Proof.
+  intros sc. unfold span_toks_compact. induction sc as [|s t [A B]]; simpl; [auto|].
+  rewrite !filter_app, A, B. destruct (span_fields s); simpl; auto.
+Qed.
+
+(** The record names the level (when shown), every span in scope root -> leaf with its fields (Full:
+    name and fields; Compact, as documented: the fields of the spans that have any), every event
+    field with its value in declaration order, and ends with the newline token. *)
+Theorem tokens_name_everything : forall f o th m sc fs,
+  let toks := tokens_spec f o th m sc fs in
+  (o_level o = true -> In (TLevel (e_level m)) toks)
+  /\ filter is_span_tok toks = match f with
+                               | Full => map (fun s => TSpan (s_name s) (span_fields s)) sc
+                               | Compact => span_toks_compact sc
+                               end
+  /\ filter is_field_tok toks = field_toks true fs
+  /\ exists pre, toks = pre ++ [TNewline] /\ ~ In TNewline pre.
+Proof.
+  intros f o th m sc fs toks. subst toks.
+  destruct (head_no_span_field o m th) as [H1 H2], (loc_no_span_field o m) as [L1 L2],
+           (field_toks_filters true fs) as [F1 F2], (span_toks_full_filters sc) as [S1 S2],
+           (span_toks_compact_filters sc) as [C1 C2].
+  split; [|split; [|split]].
+  - intros Hl. unfold tokens_spec, head_toks. rewrite Hl.
+    destruct f; apply in_or_app; left; apply in_or_app; right; apply in_or_app; left; simpl; auto.
+  - unfold tokens_spec. destruct f; rewrite !filter_app, ?H1, ?L1, ?F1, ?S1, ?C1; simpl; rewrite ?app_nil_r; reflexivity.
+  - unfold tokens_spec. destruct f; rewrite !filter_app, ?H2, ?L2, ?F2, ?S2, ?C2; simpl; rewrite ?app_nil_r; reflexivity.
+  - assert (NH : ~ In TNewline (head_toks o m th)).
+    { unfold head_toks, opt_tok. destruct (o_timer o), (o_level o), (o_tname o), (o_tid o); simpl; intuition discriminate. }
+    assert (NL : ~ In TNewline (loc_toks o m)).
+    { unfold loc_toks, opt_tok. destruct (o_target o), (o_file o), (e_file m), (shown_line o m); simpl; intuition discriminate. }
+    assert (NF : forall first, ~ In TNewline (field_toks first fs)).
+    { clear. induction fs as [|[n v] r IH]; intros first; simpl; [tauto|]. intros [H|H]; [discriminate | exact (IH false H)]. }
+    assert (NS : ~ In TNewline (span_toks_full sc)).
+    { unfold span_toks_full. intros H. apply in_app_or in H as [H|H].
+      - apply in_map_iff in H as [s [E _]]. discriminate.
+      - destruct sc; simpl in H; [tauto | destruct H as [H|[]]; discriminate]. }
+    assert (NC : ~ In TNewline (span_toks_compact sc)).
+    { unfold span_toks_compact. intros H. apply in_flat_map in H as [s [_ H]].
+      destruct (span_fields s); simpl in H; [tauto | destruct H as [H|[]]; discriminate]. }
+    unfold tokens_spec. destruct f.
+    + exists (head_toks o m th ++ span_toks_full sc ++ loc_toks o m ++ field_toks true fs).
+      split; [rewrite <- !app_assoc; reflexivity|].
+      intros H. apply in_app_or in H as [H|H]; [exact (NH H)|].
+      apply in_app_or in H as [H|H]; [exact (NS H)|].
+      apply in_app_or in H as [H|H]; [exact (NL H)|]. exact (NF true H).
+    + exists (head_toks o m th ++ loc_toks o m ++ field_toks true fs ++ span_toks_compact sc).
+      split; [rewrite <- !app_assoc; reflexivity|].
+      intros H. apply in_app_or in H as [H|H]; [exact (NH H)|].
+      apply in_app_or in H as [H|H]; [exact (NL H)|].
+      apply in_app_or in H as [H|H]; [exact (NF true H)|]. exact (NC H).
+Qed.
+
+(** ** Exactly one line *)
+
+Lemma has10_app : forall a b, has10 (a ++ b) = has10 a || has10 b.
+Proof. intros. unfold has10. apply existsb_app. Qed.
+
+Lemma clean_b_false : forall b, clean_b b = true -> has10 b = false.
+Proof. intros b H. unfold clean_b in H. destruct (has10 b); [discriminate | reflexivity]. Qed.
+
+Lemma level_str_clean : forall f l, has10 (level_str f l) = false.
+Proof.
+  intros f l. unfold level_str.
+  destruct f; destruct (l =? 1); try reflexivity; destruct (l =? 2); try reflexivity;
+    destruct (l =? 3); try reflexivity; destruct (l =? 4); reflexivity.
+Qed.
+
+Lemma strip_raw_clean : forall n, has10 n = false -> has10 (strip_raw n) = false.
+Proof.
+  intros n H. unfold strip_raw.
+  destruct n as [|a [|b r]]; try assumption.
+  destruct ((a =? 114) && (b =? 35)); [|assumption].
+  unfold has10 in *. simpl in H.
+  apply Bool.orb_false_elim in H as [_ H]. apply Bool.orb_false_elim in H as [_ H]. exact H.
+Qed.
+
+Lemma fld_head_clean : forall n, has10 n = false -> has10 (fld_head n) = false.
+Proof.
+  intros n H. unfold fld_head. destruct (is_message n); [reflexivity|].
+  rewrite has10_app, (strip_raw_clean n H). reflexivity.
+Qed.
+
+Lemma pad_clean : forall first, has10 (pad first) = false.
+Proof. intros []; reflexivity. Qed.
+
+Lemma render_group_clean : forall g first, clean_fields g = true -> has10 (render_group first g) = false.
+Proof.
+  induction g as [|[n v] r IH]; intros first H; simpl in *; [reflexivity|].
+  apply andb_prop in H as [H Hr]. apply andb_prop in H as [Hn Hv].
+  rewrite !has10_app, pad_clean, (fld_head_clean n (clean_b_false _ Hn)), (clean_b_false _ Hv), (IH false Hr). reflexivity.
+Qed.
+
+Lemma span_fields_clean : forall s, clean_span s = true -> has10 (span_fields s) = false.
+Proof.
+  intros [name groups] H. unfold clean_span in H. simpl in H. apply andb_prop in H as [_ H].
+  unfold span_fields. simpl.
+  assert (G : forall gs cur, forallb clean_fields gs = true -> has10 cur = false -> has10 (fold_left add_group gs cur) = false).
+  { induction gs as [|g t IH]; intros cur Hg Hc; simpl in *; [assumption|].
+    apply andb_prop in Hg as [Hg Ht]. apply IH; [assumption|].
+    unfold add_group. destruct cur; [apply render_group_clean; assumption|].
+    rewrite !has10_app, Hc, (render_group_clean g true Hg). reflexivity. }
+  apply G; [assumption | reflexivity].
+Qed.
+
+Definition tok_clean (t : tok) : bool :=
+  match t with
+  | TTimer | TLevel _ | TScopeEnd => true
+  | TThreadName b | TThreadId b | TTarget b | TFile b _ | TLine b | TSpanFields b => clean_b b
+  | TSpan n fs => clean_b n && clean_b fs
+  | TField _ n v => clean_b n && clean_b v
+  | TNewline => false
+  end.
+
+Lemma render_tok_clean : forall f t, tok_clean t = true -> has10 (render_tok f t) = false.
+Proof.
+  intros f t H. destruct t; cbn [render_tok tok_clean] in *; try discriminate.
+  - reflexivity.
+  - rewrite has10_app, level_str_clean. reflexivity.
+  - rewrite has10_app, (clean_b_false _ H). reflexivity.
+  - rewrite has10_app, (clean_b_false _ H). reflexivity.
+  - apply andb_prop in H as [Hn Hf]. rewrite !has10_app, (clean_b_false _ Hn).
+    destruct fields as [|x y]; [reflexivity|]. rewrite !has10_app, (clean_b_false _ Hf). reflexivity.
+  - reflexivity.
+  - rewrite has10_app, (clean_b_false _ H). destruct f; reflexivity.
+  - rewrite !has10_app, (clean_b_false _ H). destruct f; [destruct line_follows|]; reflexivity.
+  - rewrite has10_app, (clean_b_false _ H). destruct f; reflexivity.
+  - apply andb_prop in H as [Hn Hv].
+    rewrite !has10_app, pad_clean, (fld_head_clean _ (clean_b_false _ Hn)), (clean_b_false _ Hv). reflexivity.
+  - rewrite has10_app, (clean_b_false _ H). reflexivity.
+Qed.
+
+Lemma toks_clean : forall f toks, forallb tok_clean toks = true -> has10 (concat (map (render_tok f) toks)) = false.
+Proof.
+  intros f toks. induction toks as [|t r IH]; intros H; simpl in *; [reflexivity|].
+  apply andb_prop in H as [Ht Hr]. rewrite has10_app, (render_tok_clean f t Ht), (IH Hr). reflexivity.
+Qed.
+
+Lemma forallb_app' : forall (p : tok -> bool) a b, forallb p (a ++ b) = forallb p a && forallb p b.
+Proof. intros. apply forallb_app. Qed.
+
+(** C13_content, one-line part: when no input text contains a raw newline (the property's exclusion),
+    a completed Full / Compact record is [body ++ "\n"] with no newline in [body]. *)
+Theorem single_line : forall f o th m sc fl fs, ok_fields fl = Some fs ->
+  inputs_nl_free th m sc fs = true ->
+  exists body, format_event f o th (Em m sc fl) = OOk (body ++ [10]) /\ has10 body = false.
+Proof.
+  intros f o th m sc fl fs H C. rewrite (content_tokens f o th m sc fl fs H).
+  unfold inputs_nl_free in C.
+  repeat (apply andb_prop in C as [C ?]).
+  assert (Hh : forallb tok_clean (head_toks o m th) = true).
+  { unfold head_toks, opt_tok. destruct (o_timer o), (o_level o), (o_tname o), (o_tid o); simpl; rewrite ?C, ?H5; reflexivity. }
+  assert (Hl : forallb tok_clean (loc_toks o m) = true).
+  { unfold loc_toks, opt_tok, shown_line. unfold clean_o in *.
+    destruct (o_target o), (o_file o), (e_file m), (o_line o), (e_line m); simpl; rewrite ?H4, ?H3, ?H2; reflexivity. }
+  assert (Hf : forall first, forallb tok_clean (field_toks first fs) = true).
+  { clear - H0. induction fs as [|[n v] r IH]; intros first; simpl in *; [reflexivity|].
+    apply andb_prop in H0 as [A B]. rewrite A, (IH B false). reflexivity. }
+  assert (Hsf : forallb tok_clean (span_toks_full sc) = true).
+  { unfold span_toks_full. rewrite forallb_app'. apply andb_true_intro. split; [|destruct sc; reflexivity].
+    clear - H1. induction sc as [|s t IH]; simpl in *; [reflexivity|].
+    apply andb_prop in H1 as [A B]. rewrite (IH B), andb_true_r.
+    pose proof (span_fields_clean s A) as Q. unfold clean_span in A. apply andb_prop in A as [A _].
+    rewrite A. unfold clean_b. rewrite Q. reflexivity. }
+  assert (Hsc : forallb tok_clean (span_toks_compact sc) = true).
+  { unfold span_toks_compact. clear - H1. induction sc as [|s t IH]; simpl in *; [reflexivity|].
+    apply andb_prop in H1 as [A B]. rewrite forallb_app', (IH B), andb_true_r.
+    pose proof (span_fields_clean s A) as Q. destruct (span_fields s) eqn:E; [reflexivity|].
+    simpl. unfold clean_b. rewrite Q. reflexivity. }
+  unfold tokens_spec. destruct f.
+  - exists (concat (map (render_tok Full) (head_toks o m th ++ span_toks_full sc ++ loc_toks o m ++ field_toks true fs))).
+    split.
+    + f_equal. rewrite !concat_map_app. simpl. rewrite <- !app_assoc. reflexivity.
+    + apply toks_clean. rewrite !forallb_app', Hh, Hsf, Hl, (Hf true). reflexivity.
+  - exists (concat (map (render_tok Compact) (head_toks o m th ++ loc_toks o m ++ field_toks true fs ++ span_toks_compact sc))).
+    split.
+    + f_equal. rewrite !concat_map_app. simpl. rewrite <- !app_assoc. reflexivity.
+    + apply toks_clean. rewrite !forallb_app', Hh, Hsc, Hl, (Hf true). reflexivity.
+Qed.
+
+(** Non-vacuity: the F9 replay's first record, and a compact record inside two spans. *)
+Example content_example_full :
+  let o := Opts false true false false true false false in
+  let m := EMeta 3 (str "p") (str "event e1") None None false in
+  let fl := FOk (str "message") (str "first") (FOk (str "a") (str "1") FNil) in
+  format_event Full o (Thr [] []) (Em m [] fl) = OOk (str " INFO p: first a=1" ++ [10])
+  /\ inputs_nl_free (Thr [] []) m [] [(str "message", str "first"); (str "a", str "1")] = true.
+Proof. vm_compute. auto. Qed.
+
+Example content_example_compact :
+  let o := Opts false true false false true false false in
+  let m := EMeta 2 (str "app") (str "event e") None None false in
+  let sc := [Span (str "outer") [[(str "a", str "1")]; [(str "b", str "2")]]; Span (str "inner") [[]]] in
+  format_event Compact o (Thr [] []) (Em m sc (FOk (str "k") (str "7") FNil)) = OOk (str "! app:k=7 a=1 b=2" ++ [10]).
+Proof. vm_compute. auto. Qed.
